@@ -946,3 +946,270 @@ def reroute_test_silent(ops_between, trans, shapes_before, route):
         elif o[0] == 'D':
             cur.pop(o[1], None)
     return True if tested else None
+
+
+# ------------------------------------------------------------------------------------------ directed history families (C03 / C06)
+# Added for the seeded changes C03-4 (a move that leaves the polygon unchanged), C06-4 (add + move + RELATIVE move of one shape in
+# one transaction) and C05-2 / C03-3 (transactions that contain only deletions / only additions / only endpoint changes).
+def plain_scene_valid(shapes, conns, generic=True):
+    """boxes separated by >= 1, endpoints outside every closed bounding box and distinct, no degenerate chord between graph vertices
+    (= checks/c06.py scene_valid for the default family)"""
+    polys = list(shapes.values())
+    bs = [bbox(P) for P in polys]
+    for i in range(len(bs)):
+        for j in range(i + 1, len(bs)):
+            if not box_sep(bs[i], bs[j], 1):
+                return False
+    pts = []
+    for (s, d) in conns.values():
+        if s == d or in_any_bbox(polys, s) or in_any_bbox(polys, d):
+            return False
+        pts += [s, d]
+    if generic and scene_has_degenerate_chord(polys, sorted(set(pts))):
+        return False
+    return True
+
+
+class _Hist(object):
+    """op list under construction; every op is kept only if the scene after it is valid (so the intermediate scenes of one
+    transaction are valid too, which is what checks/c06.py simulate() demands)"""
+    def __init__(self, rng, rect_only, R):
+        self.rng, self.rect_only, self.R = rng, rect_only, R
+        self.ops, self.shapes, self.conns, self.nid, self.ncid = [], {}, {}, 1, 100
+
+    def try_op(self, o):
+        s2, c2 = hist_apply(self.shapes, self.conns, o)
+        if plain_scene_valid(s2, c2):
+            self.ops.append(o)
+            self.shapes, self.conns = s2, c2
+            return True
+        return False
+
+    def P(self):
+        if self.ops and self.ops[-1] != ('P',):
+            self.ops.append(('P',))
+
+    def new_poly(self, maxw=11, minw=3):
+        x = self.rng.range(0, self.R - 1); y = self.rng.range(0, self.R - 1)
+        b = (x, y, x + self.rng.range(minw, maxw), y + self.rng.range(minw, maxw))
+        return rect_poly(b) if self.rect_only or self.rng.chance(1, 2) else poly_in_box(self.rng, b)
+
+    def add_shapes(self, n):
+        added = []
+        for _ in range(n):
+            for _ in range(40):
+                if self.try_op(('A', self.nid, self.new_poly())):
+                    added.append(self.nid); self.nid += 1
+                    break
+        return added
+
+    def across_points(self, Pg):
+        """two free points on opposite sides of shape Pg whose straight segment passes through its interior"""
+        rng, b = self.rng, bbox(Pg)
+        polys = list(self.shapes.values())
+        for _ in range(30):
+            if rng.chance(1, 2):
+                s = (b[0] - rng.range(1, 12), rng.range(b[1], b[3])); d = (b[2] + rng.range(1, 12), rng.range(b[1], b[3]))
+            else:
+                s = (rng.range(b[0], b[2]), b[1] - rng.range(1, 12)); d = (rng.range(b[0], b[2]), b[3] + rng.range(1, 12))
+            if rng.chance(1, 2):
+                s, d = d, s
+            if not in_any_bbox(polys, s) and not in_any_bbox(polys, d) and through_interior(Pg, s, d):
+                return s, d
+        return None
+
+    def add_conns(self, n, p_across=(3, 4)):
+        for _ in range(n):
+            for _ in range(30):
+                polys = list(self.shapes.values())
+                sd = None
+                if self.shapes and self.rng.chance(*p_across):
+                    sd = self.across_points(self.shapes[self.rng.choice(sorted(self.shapes))])
+                if sd is None:
+                    s = free_point(self.rng, polys, self.R, use_bbox=True)
+                    sd = (s, free_point(self.rng, polys, self.R, avoid=(s,), use_bbox=True))
+                if sd[0] != sd[1] and self.try_op(('C', self.ncid, sd[0], sd[1])):
+                    self.ncid += 1
+                    break
+
+    def blocking_shapes(self):
+        """ids of shapes through whose interior the straight line of some connector passes"""
+        return [i for i in sorted(self.shapes) if any(through_interior(self.shapes[i], s, d) for (s, d) in self.conns.values())]
+
+
+def gen_noop_move_history(rng, rect_only=False, R=40):
+    """-> (ops, tags).  Route connectors that detour round shapes, then transactions whose moves leave a shape's polygon unchanged:
+    'zero' M i 0 0; 'cancel' M i dx dy; M i -dx -dy; 'cancel3' three relative moves summing to zero; 'samepoly' T i <its polygon>;
+    'there_and_back' T i <elsewhere>; T i <its polygon>.  1 in 3 transactions also carries a real change of something else."""
+    H = _Hist(rng, rect_only, R)
+    H.add_shapes(rng.range(1, 5))
+    if not H.shapes:
+        return None, []
+    H.add_conns(rng.range(1, 3))
+    if not H.conns:
+        return None, []
+    H.P()
+    tags = []
+    for _ in range(rng.range(1, 3)):
+        cand = H.blocking_shapes()
+        i = rng.choice(cand) if cand and rng.chance(4, 5) else rng.choice(sorted(H.shapes))
+        v = rng.choice(['zero', 'zero', 'cancel', 'cancel', 'cancel3', 'samepoly', 'there_and_back'])
+        ok = False
+        for _ in range(30):
+            n0 = len(H.ops)
+            keep = (dict(H.shapes), dict(H.conns))
+            if v == 'zero':
+                ok = H.try_op(('M', i, 0, 0))
+            elif v == 'samepoly':
+                ok = H.try_op(('T', i, list(H.shapes[i])))
+            elif v == 'cancel':
+                dx, dy = rng.range(-9, 9), rng.range(-9, 9)
+                ok = (dx, dy) != (0, 0) and H.try_op(('M', i, dx, dy)) and H.try_op(('M', i, -dx, -dy))
+            elif v == 'cancel3':
+                dx, dy, ex, ey = rng.range(-7, 7), rng.range(-7, 7), rng.range(-7, 7), rng.range(-7, 7)
+                ok = H.try_op(('M', i, dx, dy)) and H.try_op(('M', i, ex, ey)) and H.try_op(('M', i, -dx - ex, -dy - ey))
+            else:
+                old = list(H.shapes[i])
+                dx, dy = rng.range(-12, 12), rng.range(-12, 12)
+                ok = (dx, dy) != (0, 0) and H.try_op(('T', i, [(x + dx, y + dy) for x, y in old])) and H.try_op(('T', i, old))
+            if ok:
+                break
+            del H.ops[n0:]
+            H.shapes, H.conns = keep
+        if not ok:
+            continue
+        tags.append(v)
+        if rng.chance(1, 3):
+            k = rng.below(3)
+            if k == 0:
+                if H.add_shapes(1):
+                    tags.append('+add')
+            elif k == 1 and len(H.shapes) > 1:
+                j = rng.choice([x for x in sorted(H.shapes) if x != i])
+                for _ in range(20):
+                    if H.try_op(('M', j, rng.range(-10, 10), rng.range(-10, 10))):
+                        tags.append('+move_other')
+                        break
+            else:
+                c = rng.choice(sorted(H.conns))
+                for _ in range(20):
+                    if H.try_op(('E', c, rng.below(2), free_point(rng, list(H.shapes.values()), R, use_bbox=True))):
+                        tags.append('+endpoint')
+                        break
+        H.P()
+    if not tags:
+        return None, []
+    return H.ops, tags
+
+
+def gen_addmove_history(rng, rect_only=False, R=40):
+    """-> (ops, tags).  Within ONE transaction: add a shape, move it 1-2 times (absolute 'T' or relative 'M'), then move it
+    RELATIVELY again ('M'); the queue model says relative moves compose on the polygon held by the queued add."""
+    H = _Hist(rng, rect_only, R)
+    H.add_shapes(rng.range(0, 2))
+    H.add_conns(rng.range(1, 2), p_across=(1, 3))
+    if not H.conns:
+        return None, []
+    H.P()
+    tags = []
+    for _ in range(rng.range(1, 2)):
+        ok = False
+        for _ in range(40):
+            n0 = len(H.ops)
+            keep = (dict(H.shapes), dict(H.conns), H.nid)
+            i = H.nid
+            seq = []
+            ok = bool(H.add_shapes(1))
+            for _ in range(rng.range(1, 2)):
+                if not ok:
+                    break
+                if rng.chance(1, 2):
+                    # absolute move, preferably far (so that a lost move is visible in the routes): onto a connector's line
+                    Pn = None
+                    c = H.conns[rng.choice(sorted(H.conns))]
+                    if rng.chance(2, 3):
+                        b = bbox(H.shapes[i]); w, h = b[2] - b[0], b[3] - b[1]
+                        mx, my = (c[0][0] + c[1][0]) // 2, (c[0][1] + c[1][1]) // 2
+                        ox, oy = mx - w // 2 - b[0] + rng.range(-2, 2), my - h // 2 - b[1] + rng.range(-2, 2)
+                        Pn = [(x + ox, y + oy) for x, y in H.shapes[i]]
+                    else:
+                        for Pc in [H.new_poly() for _ in range(10)]:
+                            if len(Pc) == len(H.shapes[i]):
+                                Pn = Pc
+                                break
+                    ok = Pn is not None and H.try_op(('T', i, Pn))
+                    seq.append('T')
+                else:
+                    ok = H.try_op(('M', i, rng.range(-15, 15), rng.range(-15, 15)))
+                    seq.append('M')
+            if ok:
+                ok = False
+                for _ in range(10):
+                    dx, dy = rng.range(-15, 15), rng.range(-15, 15)
+                    if (dx, dy) != (0, 0) and H.try_op(('M', i, dx, dy)):
+                        ok = True
+                        break
+            if ok:
+                tags.append('A' + ''.join(seq) + 'M')
+                break
+            del H.ops[n0:]
+            H.shapes, H.conns, H.nid = keep
+        if ok and rng.chance(1, 3) and len(H.shapes) > 1:
+            j = rng.choice(sorted(H.shapes))
+            if H.try_op(('M', j, rng.range(-8, 8), rng.range(-8, 8))):
+                tags.append('+M')
+        H.P()
+    if not tags:
+        return None, []
+    return H.ops, tags
+
+
+def gen_homogeneous_history(rng, rect_only=True, R=40):
+    """-> (ops, tags).  Route a dense scene, then transactions that each contain ONLY deletions (1-3 shapes), ONLY additions (1-3 shapes,
+    preferably across a connector's straight line) or ONLY endpoint changes."""
+    H = _Hist(rng, rect_only, R)
+    H.add_shapes(rng.range(3, 6))
+    H.add_conns(rng.range(1, 3))
+    if not H.conns or not H.shapes:
+        return None, []
+    H.P()
+    tags = []
+    for _ in range(rng.range(1, 4)):
+        kind = rng.choice(['del', 'del', 'add', 'end'])
+        done = 0
+        if kind == 'del' and H.shapes:
+            for _ in range(rng.range(1, 3)):
+                cand = H.blocking_shapes()
+                if not H.shapes:
+                    break
+                i = rng.choice(cand) if cand and rng.chance(3, 4) else rng.choice(sorted(H.shapes))
+                done += 1 if H.try_op(('D', i)) else 0
+        elif kind == 'add':
+            for _ in range(rng.range(1, 3)):
+                ok = False
+                for _ in range(30):
+                    Pn = H.new_poly()
+                    if rng.chance(2, 3):
+                        c = H.conns[rng.choice(sorted(H.conns))]
+                        b = bbox(Pn); w, h = b[2] - b[0], b[3] - b[1]
+                        t = rng.range(1, 3)
+                        mx, my = c[0][0] + (c[1][0] - c[0][0]) * t // 4, c[0][1] + (c[1][1] - c[0][1]) * t // 4
+                        ox, oy = mx - w // 2 - b[0], my - h // 2 - b[1]
+                        Pn = [(x + ox, y + oy) for x, y in Pn]
+                    if H.try_op(('A', H.nid, Pn)):
+                        H.nid += 1; ok = True
+                        break
+                done += 1 if ok else 0
+        else:
+            for _ in range(rng.range(1, 2)):
+                c = rng.choice(sorted(H.conns))
+                for _ in range(20):
+                    if H.try_op(('E', c, rng.below(2), free_point(rng, list(H.shapes.values()), R, use_bbox=True))):
+                        done += 1
+                        break
+        if done:
+            tags.append('%s%d' % (kind, done))
+            H.P()
+    if not tags:
+        return None, []
+    return H.ops, tags
